@@ -247,6 +247,26 @@ def install(E):
     M[('str', 'endswith')] = lambda e, n, o, pos, kws, st, k: k(st, mk_bool(z3.SuffixOf(pos[0].t, o.t)))
     M[('str', 'find')] = lambda e, n, o, pos, kws, st, k: k(st, SV(INT, z3.IndexOf(o.t, pos[0].t, 0)))
 
+    def m_split(e, n, o, pos, kws, st, k):
+        # T-LIB: s.split(sep) for a non-empty separator: a fresh list of >= 1 pieces, none containing sep; one piece iff sep does not occur;
+        # the pieces joined by sep give s back; two pieces a, b: s == a + sep + b
+        if len(pos) != 1 or pos[0].ty.kind != 'str':
+            raise Unsupported('split without an explicit separator')
+        sep = pos[0].t
+        cnt = z3.Int(fresh_name('nsplit'))
+        lst = st.new_list_sym(STR, cnt)
+        el = st.list_elems(lst)
+        j = z3.Int(fresh_name('j'))
+        J = e.join_fn()
+        st.assume(z3.Length(sep) > 0, cnt >= 1,
+                  (cnt == 1) == z3.Not(z3.Contains(o.t, sep)),
+                  z3.Implies(cnt == 1, z3.Select(el, 0) == o.t),
+                  z3.Implies(cnt == 2, o.t == z3.Concat(z3.Select(el, 0), sep, z3.Select(el, 1))),
+                  forall([j], z3.Implies(z3.And(0 <= j, j < cnt), z3.Not(z3.Contains(z3.Select(el, j), sep))), patterns=[z3.Select(el, j)]),
+                  J(sep, el, cnt) == o.t)
+        return k(st, lst)
+    M[('str', 'split')] = m_split
+
     def m_lower(e, n, o, pos, kws, st, k):
         return k(st, SV(STR, ops.Lower(o.t)))
     M[('str', 'lower')] = m_lower
